@@ -153,6 +153,9 @@ def step_obligations(pid, tier, seed, check, mutating_only=False):
                             args=args, params=P, timeout=timeout * 2))
     bounds.update(node_sizes=sizes, from_empty_k=k, per_condition_timeout_s=timeout)
     obs += failed_history_obligations(pid)
+    if pid == 'C01':
+        obs += leaf_ir_obligations(pid, tier, 'get')
+        bounds['ir_leaf_kernels'] = '_bucket_get on leaves of 0..3 (thorough 0..6) symbolic native keys, II UU LL QQ (thorough + IU UI LQ QL)'
     return {'obligations': obs, 'bounds': bounds}
 
 
@@ -258,6 +261,8 @@ def range_obligations(pid, tier, seed):
                                 args=[('lo', 'int'), ('bm', 'int'), ('which', 'int'), ('none0', 'bool')],
                                 pre=['0 <= bm < 3', '0 <= which < 2'], params=P, timeout=timeout))
     bounds.update(per_condition_timeout_s=timeout, index_range='every i, j in [-n-2, n+1] and open slice ends, all ordered pairs of consecutive accesses')
+    obs += leaf_ir_obligations(pid, tier, 'range')
+    bounds['ir_leaf_kernels'] = 'Bucket_findRangeEnd (low/high end, inclusive/exclusive) on leaves of 0..3 (thorough 0..6) symbolic native keys'
     return {'obligations': obs, 'bounds': bounds}
 
 
@@ -546,6 +551,7 @@ def evict_obligations(pid, tier, seed):
                 obs.append(dict(id='%s/native/%s/%s/n%d' % (pid, fam, kind, n), mod='h_txn', fn='evict_native', nk=0,
                                 args=[('op', 'int'), ('b', 'int'), ('ghost', 'bool')], pre=['0 <= op < 10', '0 <= b < 7'],
                                 params=dict(family=fam, kind=kind, n=n), timeout=t))
+    obs += leaf_ir_obligations(pid, tier, 'pins')
     bounds.update(per_condition_timeout_s=t, eviction_point='the e-th key comparison of the operation sweeps the whole cache (e solver-chosen, '
                   '1..40; beyond the last comparison = no sweep inside); before the operation all nodes are ghosts or all active (solver-chosen)')
     return {'obligations': obs, 'bounds': bounds}
@@ -908,6 +914,42 @@ def multi_obligations(pid, tier, seed):
                                            'c_sizes': [0, 3, 40, 799, 801, 900, 2000], 'families': MULTI_QUICK if quick else MULTI_ALL}}
 
 
+# ---------------------------------------------------------------------------
+# engine E2 leaf kernels (native-key families): obligations shared by C01, C02, C05
+
+def leaf_ir_obligations(pid, tier, what):
+    obs = []
+    quick = tier == 'quick'
+    t = 120 if quick else 600
+    fams = ['II', 'UU', 'LL', 'QQ'] if quick else ['II', 'UU', 'LL', 'QQ', 'IU', 'UI', 'LQ', 'QL']
+    ns = (0, 1, 2, 3) if quick else (0, 1, 2, 3, 4, 5, 6)
+    for fam in fams:
+        for n in ns:
+            names = [('n', 'int')] + [('k%d' % i, 'int') for i in range(n)]
+            if what in ('get', 'pins'):
+                for hk in (0, 1):
+                    for arg in (('word',) if what == 'get' else ('big', 'small')):
+                        if what == 'pins' and n not in (0, 2):
+                            continue
+                        obs.append(dict(id='%s/ir/%s/get/n%d/hk%d/%s' % (pid, fam, n, hk, arg), engine='llsym', mod='h_kernel', fn='leaf_native', nk=0,
+                                        args=names, params=dict(family=fam, kernel='leaf_get', n=n, has_key=hk, arg=arg), timeout=t))
+            if what in ('range', 'pins'):
+                for low in (0, 1):
+                    for ex in (0, 1):
+                        for arg in (('word',) if what == 'range' else ('big',)):
+                            if what == 'pins' and (n not in (0, 2) or ex):
+                                continue
+                            obs.append(dict(id='%s/ir/%s/range/n%d/low%d/ex%d/%s' % (pid, fam, n, low, ex, arg), engine='llsym', mod='h_kernel',
+                                            fn='leaf_native', nk=0, args=names,
+                                            params=dict(family=fam, kernel='leaf_range', n=n, low=low, exclude=ex, arg=arg), timeout=t))
+    return obs
+
+
+IR_LEAF_TEXT = (' Engine E2 (clang LLVM IR of the real family source + z3 bit-vectors): the compiled leaf kernels of the native-key families '
+                '(int, unsigned, long long, unsigned long long keys) run on a leaf of n symbolic machine-word keys in strictly ascending family '
+                'order, symbolic values and a symbolic argument word: ')
+
+
 COMMON_ASSUME = [
     'key objects are observed by the containers only through rich comparison, identity and None-ness '
     '(true for the object-key templates; native-key families are covered by their own obligations where stated)',
@@ -917,14 +959,17 @@ COMMON_ASSUME = [
 
 PROPS = {
     'C01': dict(
-        families=['OO'],
+        families=['OO', 'II', 'UU', 'LL', 'QQ'],
+        families_thorough=['OO', 'II', 'UU', 'LL', 'QQ', 'IU', 'UI', 'LQ', 'QL'],
         gen=lambda tier, seed: step_obligations('C01', tier, seed, 'model'),
         explanation='Each obligation symbolically executes one public call (selector inside an operation group is a solver '
                     'variable) of the real compiled or pure-Python container from a reachable pre-state whose keys are '
                     'strictly ordered symbolic integers, with symbolic argument keys (optionally None), and asserts return '
                     'value, exception class and full ordered contents against a list-based sorted-map model. CrossHair '
                     'exhausts the path tree (every feasible outcome of every key comparison the real code makes); only '
-                    'CONFIRMED counts as discharged. Plus k symbolic inserts/deletes from the empty container.',
+                    'CONFIRMED counts as discharged. Plus k symbolic inserts/deletes from the empty container.' + IR_LEAF_TEXT +
+                    '_bucket_get returns the value stored under the equal key / reports KeyError (has_key: 1 / 0), for every feasible path of '
+                    'the binary search, leaves the leaf untouched and unpinned, never reads outside the key/value vectors.',
         functions=['BTrees._base.Tree/TreeSet/Bucket/Set public methods', '_OOBTree.so: _BTree_set, _BTree_get, BTree_grow, '
                    'BTree_split, BTree_split_root, BTree_deleteNextBucket, _bucket_set, _bucket_get, bucket_split, '
                    'Bucket_grow, set_* / TreeSet_* in-place operators, BTree_clear, update'],
@@ -943,7 +988,8 @@ PROPS = {
         assumptions=COMMON_ASSUME,
     ),
     'C02': dict(
-        families=['OO'],
+        families=['OO', 'II', 'UU', 'LL', 'QQ'],
+        families_thorough=['OO', 'II', 'UU', 'LL', 'QQ', 'IU', 'UI', 'LQ', 'QL'],
         gen=lambda tier, seed: range_obligations('C02', tier, seed),
         explanation='Each obligation symbolically executes the range queries keys/values/items/iterkeys/itervalues/iteritems '
                     '(keyword and positional form) with solver-chosen bounds (omitted, None, or a symbolic key: present, in a '
@@ -951,7 +997,9 @@ PROPS = {
                     'the lazy sequences (len, every index in [-n-2, n+1] in every order of two consecutive accesses, every '
                     'step-1 slice) on the real compiled and pure-Python containers from a reachable pre-state with strictly '
                     'ordered symbolic keys (thinned trees, single-child roots, stale separators, one-key first/last leaves '
-                    'are in the stratified core), and asserts equality with the model slice. CrossHair exhausts the path tree.',
+                    'are in the stratified core), and asserts equality with the model slice. CrossHair exhausts the path tree.' + IR_LEAF_TEXT +
+                    'Bucket_findRangeEnd returns the index of the first key >= / > the bound (low end) or the last key <= / < it (high end), or '
+                    '0 when no key qualifies, in the family\'s signed or unsigned order.',
         functions=['_OOBTree.so: BTree_rangeSearch, BTree_findRangeEnd, BTree_maxminKey, Bucket_findRangeEnd, '
                    'Bucket_rangeSearch, Bucket_maxminKey, BTreeItems_seek/_item/_slice/_length, BTreeIter_next, buildBTreeIter, '
                    'PreviousBucket', 'BTrees._base: _Tree.keys/values/items/iter*/minKey/maxKey/_findbucket, _TreeItems, '
@@ -1067,7 +1115,7 @@ PROPS = {
                                      'not installed): optimistic commit of registered + newly reachable objects, invalidation on abort'],
     ),
     'C05': dict(
-        families=['OO', 'II'],
+        families=['OO', 'II', 'UU', 'LL', 'QQ'],
         gen=lambda tier, seed: evict_obligations('C05', tier, seed),
         explanation='Each catalogue shape with symbolic keys is stored in the mini object database; all its nodes are ghosts or all '
                     'active (solver-chosen); one public call (lookups, writes, deletes, range searches, minKey/maxKey, and calls that '
@@ -1075,7 +1123,9 @@ PROPS = {
                     'inside it (e solver-chosen: which comparison, or none) sweeps the whole object cache (PickleCache.minimize: '
                     'everything not pinned and not modified becomes a ghost). Asserted: immediately after the call no node of the '
                     'cache is in the sticky state; result, exception class and contents equal the un-cached model; after evicting '
-                    'everything again the tree reads the same; after commit a fresh reader sees the same.',
+                    'everything again the tree reads the same; after commit a fresh reader sees the same.' + IR_LEAF_TEXT +
+                    'on the paths where the argument cannot be converted (integer far outside the key range) _bucket_get and '
+                    'Bucket_findRangeEnd return with the leaf\'s persistence state exactly as at entry (PER_USE matched by PER_UNUSE).',
         functions=['_OOBTree.so: PER_USE/PER_UNUSE/PER_ALLOW_DEACTIVATION bracketing in _BTree_get, _BTree_set, BTree_findRangeEnd, '
                    'BTree_rangeSearch, BTree_maxminKey, _bucket_get/_bucket_set, Bucket_maxminKey, BTreeItems_seek, PreviousBucket, '
                    'BTree_length_or_nonzero, BTree__p_deactivate, bucket__p_deactivate, _BTree_clear, _bucket_clear', 'BTrees._base (no pinning; '
